@@ -1450,6 +1450,7 @@ def run(ctx):
 
     if ctx.replay:
         replay_case(ctx, chk, json.loads(Path(ctx.replay).read_text()))
+        verdicts(ctx, chk, broken)
         return
 
     import time
@@ -1462,20 +1463,24 @@ def run(ctx):
 
     times["obligations"] = round(ctx.elapsed(), 1)
     with tempfile.TemporaryDirectory() as tmp:
-        timed("a1", chk.stream_a1, ctx.scale(1500, 12000))
-        timed("a2", chk.stream_a2, ctx.scale(1600, 12000))
-        timed("a3", chk.stream_a3, ctx.scale(250, 2000))
+        timed("a1", chk.stream_a1, ctx.scale(1500, 30000))
+        timed("a2", chk.stream_a2, ctx.scale(1600, 24000))
+        timed("a3", chk.stream_a3, ctx.scale(250, 4000))
         timed("lean", chk.flush)
         timed("a4", chk.ctor_check, tmp)
-        timed("a4", chk.stream_a4, ctx.scale(25, 160), tmp)
+        timed("a4", chk.stream_a4, ctx.scale(25, 300), tmp)
         timed("probes", chk.probes, tmp)
         timed("lean", chk.flush)
-        timed("a5", chk.stream_a5, ctx.scale(12, 70), tmp)
-        timed("a6", chk.stream_a6, ctx.scale(25, 200), tmp)
+        timed("a5", chk.stream_a5, ctx.scale(12, 120), tmp)
+        timed("a6", chk.stream_a6, ctx.scale(25, 400), tmp)
         timed("lean", chk.flush)
     ctx.extra["stage_seconds"] = times
 
-    # verdicts for broken obligations / correspondence without a failing input
+    verdicts(ctx, chk, broken)
+
+
+def verdicts(ctx, chk, broken):
+    """broken obligations / correspondence; `no_input` when the search found no failing input"""
     found_input = any(not v["no_input"] for v in ctx.violations)
     for b in broken:
         ctx.violation("obligation:" + b.split(":")[0], f"proof obligation broken: {b}", {"obligation": b}, no_input=not found_input)
